@@ -37,6 +37,24 @@ Proof.
   intro H. exact (c15 N ih ILeaf INode IEmpty ih_eqb N.eqb LOG ih_eqb_eq INode_inj ILeaf_inj H evs).
 Qed.
 
+Theorem ideal_c15_persist (LOG : list N) (evs : list iev) : N.of_nat (length LOG) < 2 ^ 62 ->
+  let w := irun LOG evs in
+  forall r, In r (w_signed w) ->
+    let n := ck_size (sr_ck r) in
+    (forall t, In t (tiles_needed n) ->
+       lookup (w_store w) (KHash t) =
+         Some (OHash (tile_hashes ih INode (iLH LOG) (tc_L t) (tc_N t) (tc_W t))) \/
+       lookup (w_store w) (KHash (mkT (tc_L t) (tc_N t) 256)) =
+         Some (OHash (tile_hashes ih INode (iLH LOG) (tc_L t) (tc_N t) 256))) /\
+    (forall j, j * 256 < n ->
+       lookup (w_store w) (KData j (N.min 256 (n - j * 256))) =
+         Some (OData (firstn (N.to_nat (N.min 256 (n - j * 256))) (skipn (N.to_nat (j * 256)) LOG))) \/
+       lookup (w_store w) (KData j 256) =
+         Some (OData (firstn (N.to_nat 256) (skipn (N.to_nat (j * 256)) LOG)))).
+Proof.
+  intro H. exact (c15_persist N ih ILeaf INode IEmpty ih_eqb N.eqb LOG ih_eqb_eq INode_inj ILeaf_inj H evs).
+Qed.
+
 Theorem ideal_c15_auth (w : iworld) sid (s : session N ih) fs :
   let ts := s_base s + s_i s * 256 in
   let pstart := N.max (s_start s) ts in
